@@ -481,7 +481,8 @@ def rich_state(rng, ncells=None, allow=None):
         pool = ["eq", "exch", "surf", "gas", "ss", "kin", "react", "temp", "pres", "mix"]
         if allow is not None:
             pool = [p for p in pool if p in allow]
-        for k in rng.sample(pool, rng.randint(1, min(5, len(pool)))):
+        chosen = rng.sample(pool, rng.randint(1, min(5, len(pool))))
+        for k in chosen:
             kinds.add(k)
             if k == "eq":
                 t += eq_phases(rng, c, nmax=4)
@@ -521,6 +522,24 @@ def rich_state(rng, ncells=None, allow=None):
                     t += "REACTION_PRESSURE %d\n %s\n" % (c, fmt(rng.choice([1, 3, 10])))
             elif k == "mix":
                 t += "MIX %d\n %d %s\n %d %s\n" % (c, c, fmt(rng.uniform(0.3, 1)), rng.randint(1, c), fmt(rng.uniform(0.1, 0.7)))
+        # exchangers whose amount belongs to a kinetic reactant or to a mineral of the same cell (NaX rate kinetic_reactant 0.1 / CaX2 Calcite equilibrium_phase 0.05)
+        if "exch" in chosen and "kin" in chosen and rng.random() < 0.4:
+            mk = re.search(r"KINETICS %d\n (\S+)\n -formula (\S+)" % c, t)
+            if mk:
+                # the exchanger's own elements must occur in the reactant's formula
+                xsp = {"Na": "NaX", "K": "KX", "Ca": "CaX2"}[next(e for e in ("Na", "K", "Ca") if mk.group(2).startswith(e))]
+                t = re.sub(r"EXCHANGE %d\n(?: [^\n]*\n)+" % c, "EXCHANGE %d\n %s %s kinetic_reactant %s\n" % (c, xsp, mk.group(1), fmt(round(rng.uniform(0.05, 0.5), 3))), t)
+                kinds.add("exch_kinetic")
+                if rng.random() < 0.7:
+                    # the defining simulation reacts the cell once; a kinetic reactant is updated in place by that, an exchanger only when it is saved
+                    t += "SAVE solution %d\nSAVE exchange %d\n" % (c, c)
+        elif "exch" in chosen and "eq" in chosen and rng.random() < 0.3:
+            mp = re.search(r"EQUILIBRIUM_PHASES %d\n (\S+) \S+ (\S+)" % c, t)
+            if mp and mp.group(1) != "CO2(g)" and float(mp.group(2)) > 0:
+                t = re.sub(r"EXCHANGE %d\n(?: [^\n]*\n)+" % c, "EXCHANGE %d\n %s %s equilibrium_phase %s\n" % (c, rng.choice(["CaX2", "NaX"]), mp.group(1), fmt(round(rng.uniform(0.02, 0.2), 3))), t)
+                kinds.add("exch_phase")
+                if rng.random() < 0.7:
+                    t += "SAVE solution %d\nSAVE exchange %d\nSAVE equilibrium_phases %d\n" % (c, c, c)
         if "eq" in kinds and "gas" in kinds:
             # the same gas as a pure phase of fixed fugacity and as a component of the GAS_PHASE of that cell has no unique equilibrium (the manual says
             # to define a gas in one of the two): the pure-phase line goes
